@@ -2,6 +2,7 @@
 From Coq Require Import List Arith Lia Bool PeanoNat String.
 Import ListNotations.
 From SP Require Import Skel Gen Expected Result TaskFS TInv TPres Glue Cor TaskTop.
+From SP Require FailWindow.
 
 (* T1: Fail is os.Exit(1); a failing command, a missing output and a failing rename all reach Fail; no recover anywhere *)
 Theorem C09_code_conforms :
@@ -41,8 +42,28 @@ Theorem C09_no_dependants : forall (c : cfg) (f0 : fs) (left0 : nat -> bool), wf
   shares (tout (tk c d)) (tin (tk c t)) = true -> pcs s t <> Wait -> is_done (pcs s d) = true.
 Proof. exact Cor.C09_no_dependants. Qed.
 
+(* between the failure and os.Exit (the report is written in between, the other tasks go on -- FailWindow): no task that
+   reads an output of the failed task leaves Wait, for as long as the program lives; and once it is gone nothing moves *)
+Theorem C09_window_no_dependants : forall (c : cfg) (f0 : fs) (left0 : nat -> bool), wfc c ->
+  forall w, FailWindow.wreachable c f0 left0 w ->
+  forall t d, t < nt c -> d < t -> FailWindow.failed w d = true ->
+  shares (tout (tk c d)) (tin (tk c t)) = true -> pcs (FailWindow.base w) t = Wait.
+Proof. intros c f0 left0 WF w R. exact (FailWindow.window_no_dependants c f0 left0 WF w R). Qed.
+
+Theorem C09_window_gone_is_final : forall (c : cfg) (w : FailWindow.wst) (a : FailWindow.wact),
+  FailWindow.gone w = true -> FailWindow.wstep c w a = None.
+Proof. exact FailWindow.window_gone_is_final. Qed.
+
+(* a failed task takes no further step: its goroutine is inside Fail until the program ends *)
+Theorem C09_window_failed_is_stopped : forall (c : cfg) (w : FailWindow.wst) (a : act),
+  FailWindow.failed w (node_of a) = true -> FailWindow.wstep c w (FailWindow.WTask a) = None.
+Proof. intros c w a F. unfold FailWindow.wstep. rewrite F. destruct (FailWindow.gone w); reflexivity. Qed.
+
 Print Assumptions C09_code_conforms.
 Print Assumptions C09_fail_is_exit.
 Print Assumptions C09_exit_is_final.
 Print Assumptions C09_failed_outputs_untouched.
 Print Assumptions C09_no_dependants.
+Print Assumptions C09_window_no_dependants.
+Print Assumptions C09_window_gone_is_final.
+Print Assumptions C09_window_failed_is_stopped.
